@@ -154,6 +154,11 @@ pub fn txt_get(v: &[Prop], key: &str) -> Option<Prop> {
     crate::service_info::verif_access::txt_get(v, key)
 }
 
+/// Builds `TxtProperty` values from plain data (for `ServiceInfo::new`).
+pub fn make_props(v: &[Prop]) -> Vec<crate::TxtProperty> {
+    crate::service_info::verif_access::to_props(v)
+}
+
 /// `ServiceInfo::new` with the properties given as `Vec<TxtProperty>`; returns the stored
 /// properties and the TXT RDATA it would publish.
 pub fn service_info_new_txt(v: &[Prop]) -> Result<(Vec<Prop>, Vec<u8>), String> {
